@@ -62,7 +62,19 @@ func (g *Gen) expArg(op string) d128.Decimal {
 }
 
 func (g *Gen) logArg(op string) d128.Decimal {
-	switch g.r.Intn(9) {
+	switch g.r.Intn(12) {
+	case 9, 10: // the neighbourhood of one, where the result is small and its last place finest: [0.9, 1.2]
+		c := new(big.Int).Add(new(big.Int).Mul(big.NewInt(int64(900+g.r.Intn(300))), pow10(30)), new(big.Int).Rand(g.r, pow10(30)))
+		if g.r.Intn(3) == 0 { // short inputs such as 1.0999999
+			k := 3 + g.r.Intn(10)
+			c = new(big.Int).Div(c, pow10(33-k))
+			return mk(false, c, -k)
+		}
+		return mk(false, c, -33)
+	case 11: // the upper end of a leading-two-digit slot (largest series argument), value in [1, 10) or [0.1, 1)
+		lead := 10 + g.r.Intn(90)
+		c := new(big.Int).Add(new(big.Int).Mul(big.NewInt(int64(lead)), pow10(31)), new(big.Int).Sub(pow10(31), new(big.Int).Rand(g.r, pow10(29))))
+		return mk(false, c, -32-g.r.Intn(2))
 	case 0: // every leading-two-digit slot, anywhere in the exponent range
 		lead := 10 + g.r.Intn(90)
 		c := new(big.Int).Mul(big.NewInt(int64(lead)), pow10(g.r.Intn(33)))
@@ -108,7 +120,14 @@ func (g *Gen) logArg(op string) d128.Decimal {
 }
 
 func (g *Gen) log1pArg() d128.Decimal {
-	switch g.r.Intn(6) {
+	switch g.r.Intn(8) {
+	case 6, 7: // 1 + x in [0.9, 1.2]
+		v := g.r.Intn(300) - 100
+		c := new(big.Int).Add(new(big.Int).Mul(big.NewInt(int64(absInt(v))), pow10(30)), new(big.Int).Rand(g.r, pow10(30)))
+		if v < 0 && c.Cmp(pow10(32)) >= 0 {
+			c = new(big.Int).Sub(pow10(32), big.NewInt(1))
+		}
+		return mk(v < 0, c, -33)
 	case 0: // tiny
 		c := randDigits(g.r, 1+g.r.Intn(34))
 		return mk(g.r.Intn(2) == 0, c, clampExp(-g.r.Intn(6100)-len(c.String())))
@@ -222,7 +241,7 @@ func (g *Gen) powGeneral() (x, y d128.Decimal) {
 	neg := false
 	var xc, yc *big.Int
 	var xe, ye int
-	switch g.r.Intn(6) {
+	switch g.r.Intn(7) {
 	case 0: // base near 1, large exponent
 		k := 1 + g.r.Intn(33)
 		xc = new(big.Int).Add(pow10(k), big.NewInt(int64(g.r.Intn(19)-9)))
@@ -241,6 +260,15 @@ func (g *Gen) powGeneral() (x, y d128.Decimal) {
 		yc = big.NewInt(int64(math.Abs(yv) * 1000))
 		ye = -3
 		if yv < 0 {
+			yc.Neg(yc)
+		}
+	case 5: // negative bases with huge integer exponents, odd and even: the sign must survive overflow and underflow
+		neg = true
+		xc = randDigits(g.r, 1+g.r.Intn(6))
+		xe = g.r.Intn(5) - 3
+		yc = new(big.Int).Add(new(big.Int).Mul(big.NewInt(int64(1+g.r.Intn(9))), pow10(5+g.r.Intn(20))), big.NewInt(int64(g.r.Intn(4))))
+		ye = 0
+		if g.r.Intn(2) == 0 {
 			yc.Neg(yc)
 		}
 	case 2: // integer exponents, negative bases
